@@ -84,3 +84,27 @@ Proof. vm_compute. auto. Qed.
 Lemma equal_mtimes_sorted :
   heap_leb fix18 (entry_of fB) (entry_of fA) = false /\ heap_leb post_fix (entry_of fB) (entry_of fA) = true.
 Proof. vm_compute. auto. Qed.
+
+(* Corner 3 (known finding D20): equally old files are ordered by path TEXT, which is not their creation order once
+   the counter suffix has two digits: "a-2" (created first) and "a-10" (created later) with the same mtime and a
+   budget for one file -- the repaired heap order (mtime, then path) deletes "a-10", the NEWER file, and keeps
+   "a-2": the survivors are not a most-recent suffix.  [run_ops] folds set_step over a case. *)
+Fixpoint run_ops (v : variant) (prefix : bytes) (s : sys) (ops : list sop) : res sys :=
+  match ops with
+  | [] => ROk s
+  | o :: t => match set_step v Debug prefix s o with ROk s' => run_ops v prefix s' t | r => r end
+  end.
+Definition n_a2 : bytes := [97; 45; 50].          (* "a-2"  *)
+Definition n_a10 : bytes := [97; 45; 49; 48].     (* "a-10" *)
+Definition d20_ops : list sop :=
+  [OMkFile n_a2 true 100 5; OMkFile n_a10 true 100 5; ONew []; OWhileOver 150].
+Definition entry_names (r : res sys) : list fname :=
+  match r with ROk (_, st) => map p_name (entries st) | _ => [] end.
+Lemma name_order_hole_refuted :
+  entry_names (run_ops fix18 [97] ([], mkPset [] 0 []) d20_ops) = [NPre n_a2] /\
+  let before := [mkPfile (NPre n_a2) 5 100; mkPfile (NPre n_a10) 5 100] in
+  oracle_set_creation [NPre n_a2; NPre n_a10] before [NPre n_a10] = false /\
+  kf_c19_equal_mtime_name_order [NPre n_a2; NPre n_a10] before [NPre n_a10] = true /\
+  (* with the names in creation order ("a-2" then "a-3") the same history keeps the newer file *)
+  oracle_set_creation [NPre n_a2; NPre [97; 45; 51]] [mkPfile (NPre n_a2) 5 100; mkPfile (NPre [97; 45; 51]) 5 100] [NPre n_a2] = true.
+Proof. vm_compute. repeat split; reflexivity. Qed.
